@@ -183,6 +183,60 @@ def program(rng, pid, shape=None, profile="full", nstmts=(0, 3), asserts=True, n
             "entry": entry, "exit": exit_, "blocks": bld.blocks, "init": init}
 
 
+def defuse_program(rng, pid):
+    """directed family (C17, also used by C18): a definition of variable t whose ONLY use is one operand position of one
+    later statement (right-hand side of an assignment, left/right operand of an arithmetic operation, condition / then- /
+    else-operand of a select, an assume, an assert), possibly behind a diamond; the value flows into the single function
+    output r.  Dead-code elimination must keep the definition for every operand position (the use sets of the statements)."""
+    t, r, o = rng.sample([1, 2, 3], 3)
+    vars_ = [{"n": n, "t": "int"} for n in ("x", "y", "z")]
+    unit = lambda v: {"k": rng.randint(-1, 1), "t": [[rng.choice([1, -1]), v]]}
+    const = lambda: {"k": rng.randint(-2, 2), "t": []}
+    d = rng.choice(["assign", "assignv", "arith", "select"])
+    if d == "assign":
+        dfn = {"op": "assign", "x": t, "e": const()}
+    elif d == "assignv":
+        dfn = {"op": "assign", "x": t, "e": unit(o)}
+    elif d == "arith":
+        dfn = {"op": "arith", "f": rng.choice(["add", "sub"]), "x": t, "y": o, "zk": 1, "z": rng.randint(-2, 2)}
+    else:
+        dfn = {"op": "select", "x": t, "c": {"e": unit(o), "r": rng.choice(["le", "lt", "eq"])}, "e1": const(), "e2": const()}
+    u = rng.choice(["assign", "arith_y", "arith_z", "sel_c", "sel_e1", "sel_e2", "assume", "assert"])
+    post = []
+    if u == "assign":
+        use = {"op": "assign", "x": r, "e": unit(t)}
+    elif u == "arith_y":
+        use = {"op": "arith", "f": rng.choice(["add", "sub"]), "x": r, "y": t, "zk": 1, "z": rng.randint(-2, 2)}
+    elif u == "arith_z":
+        use = {"op": "arith", "f": rng.choice(["add", "sub"]), "x": r, "y": o, "zk": 0, "z": t}
+    elif u == "sel_c":
+        use = {"op": "select", "x": r, "c": {"e": unit(t), "r": rng.choice(["le", "lt", "eq"])}, "e1": const(), "e2": unit(o)}
+    elif u == "sel_e1":
+        use = {"op": "select", "x": r, "c": {"e": unit(o), "r": rng.choice(["le", "lt", "eq"])}, "e1": unit(t), "e2": const()}
+    elif u == "sel_e2":
+        use = {"op": "select", "x": r, "c": {"e": unit(o), "r": rng.choice(["le", "lt", "eq"])}, "e1": const(), "e2": unit(t)}
+    elif u == "assume":
+        use = {"op": "assume", "c": {"e": unit(t), "r": rng.choice(["le", "lt", "eq", "ne"])}}
+        post = [{"op": "assign", "x": r, "e": unit(o)}]
+    else:
+        use = {"op": "assert", "c": {"e": unit(t), "r": rng.choice(["le", "lt", "eq", "ne"])}, "id": 1}
+        post = [{"op": "assign", "x": r, "e": unit(o)}]
+    pre = [{"op": "assign", "x": r, "e": const()}] if rng.random() < 0.5 else []
+    shape = rng.choice(["line", "split", "diamond"])
+    if shape == "line":
+        blocks = [{"succ": [2], "stmts": pre + [dfn]}, {"succ": [], "stmts": [use] + post}]
+        ex = 2
+    elif shape == "split":
+        blocks = [{"succ": [2], "stmts": pre + [dfn]}, {"succ": [3], "stmts": []}, {"succ": [], "stmts": [use] + post}]
+        ex = 3
+    else:       # the use sits in one arm of a diamond
+        blocks = [{"succ": [2, 3], "stmts": pre + [dfn]}, {"succ": [4], "stmts": [use] + post},
+                  {"succ": [4], "stmts": [{"op": "assign", "x": r, "e": const()}]}, {"succ": [], "stmts": []}]
+        ex = 4
+    return {"id": pid, "shape": "defuse:%s>%s:%s" % (d, u, shape), "vars": vars_, "kinds": ["int"] * 3, "nv": 3, "entry": 1, "exit": ex,
+            "init": [], "blocks": blocks, "fn": {"name": "f", "in": [], "out": [r]}, "outs": [r]}
+
+
 def has_loop(p):
     # a cycle reachable from the entry
     color = {}
